@@ -133,6 +133,11 @@ func (s panicSpec) fire() {
 		m[s.msg] = 1 // assignment to entry in nil map
 	case 4:
 		panic(tBadPayload{msg: s.msg})
+	case 6:
+		// a typed nil pointer whose method dereferences its receiver: printed as <nil>
+		panic((*tPStringer)(nil))
+	case 7:
+		panic([]*tPErr{nil})
 	default:
 		panic(tBadPayload{msg: s.msg, k: s.k})
 	}
